@@ -95,6 +95,14 @@ def install(it):
         ctx.prove(name, it_.truth(c, ctx), label=label, assume_after=True)
     reg("lemma", lemma)
 
+    def rewrite(it_, ctx, name, term, closed):
+        """prove term == closed, then replace `term` by `closed` in every later goal (proved rewrite rule;
+        keeps non-linear proofs small: DESIGN 3.8)"""
+        t, c = to_real(lift(term)), to_real(lift(closed))
+        ctx.prove(name, t == c)
+        ctx.rewrites = getattr(ctx, "rewrites", []) + [(z3.simplify(t), c)]
+    reg("rewrite", rewrite)
+
     def cover(it_, ctx, name):
         ctx.covers.add(name)
     reg("cover", cover)
@@ -143,7 +151,7 @@ def install(it):
         if isinstance(e, (FuncVal, BoundMethod, Builtin)):
             e = it_.call(e, [x], {}, ctx)
         try:
-            return simp(reals.deriv(lift(e), x))
+            return lower(reals.deriv(lift(e), x))
         except reals.NotDifferentiable as ex:
             raise Unsupported("deriv: %s" % ex)
     reg("deriv", deriv)
